@@ -28,6 +28,9 @@ func (r *runner) fragAction(ids *int, runnable bool) string {
 	case 2:
 		return "phase:" + r.pick([]string{"1", "2", "3", "4", "5", "request", "response", "logging", "0", "6", "x", "", "'1'"})
 	case 3:
+		if !runnable && r.rng.Intn(2) == 0 {
+			return r.pick([]string{"deny", "drop", "block", "block", "deny:1"})
+		}
 		return r.pick([]string{"pass", "log", "nolog", "auditlog", "noauditlog"})
 	case 4:
 		return r.pick([]string{"pass", "log", "nolog"}) + r.pick([]string{":1", ":", ":''"})
@@ -55,6 +58,9 @@ func (r *runner) fragAction(ids *int, runnable bool) string {
 		return "tag:" + r.pick([]string{"'t1'", "t2"})
 	default:
 		*ids++
+		if fragPhase != "" && r.rng.Intn(3) != 0 {
+			return fmt.Sprintf("id:%d,phase:%s", *ids, fragPhase)
+		}
 		return fmt.Sprintf("id:%d,phase:%s", *ids, r.pick([]string{"1", "2", "3", "4", "5", "request", "logging"}))
 	}
 }
@@ -90,6 +96,8 @@ func (r *runner) fragLine(ids *int, runnable bool) string {
 		o := r.pick([]string{"@streq a", "@contains ab", "!@beginsWith /", "@endsWith z", "@within a b", "@strmatch q", "@unconditionalMatch x", "@noMatch x", "@nosuchop a", "@ x"})
 		acts := r.pick([]string{"", ` "` + r.fragActions(ids, false) + `"`, ` "id:1`, ` x`})
 		return "SecRule " + t + ` "` + o + `"` + acts
+	case (k == 13 && r.rng.Intn(2) == 0) || (k < 10 && r.rng.Intn(4) == 0):
+		return r.fragDefault(runnable)
 	case k < 10:
 		return "SecMarker" + r.pick([]string{" END", " M 1", "", " \"Q\""})
 	case k < 11:
@@ -103,9 +111,51 @@ func (r *runner) fragLine(ids *int, runnable bool) string {
 	}
 }
 
+// fragDefault: a SecDefaultAction line of the modelled fragment (disruptive actions pass deny drop
+// block; runnable configurations only use pass), well- and ill-formed
+var fragPhase string
+
+func (r *runner) fragDefault(runnable bool) string {
+	dis := r.pick([]string{"pass", "deny", "drop", "block", "block"})
+	if runnable {
+		dis = "pass"
+	}
+	ph := r.pick([]string{"1", "2", "3", "4", "5", "2", "1"})
+	fragPhase = ph // the following rules mostly live in this phase (so that they inherit)
+	extra := r.pick([]string{"", ",log", ",nolog,auditlog", ",log,auditlog", ",setvar:tx.d=+1", ",logdata:'%{tx.a}'", ",noauditlog"})
+	q := r.pick([]string{`"`, `"`, `"`, ``})
+	switch r.rng.Intn(12) {
+	case 0:
+		return "SecDefaultAction " + q + dis + extra + q // no phase
+	case 1:
+		return "SecDefaultAction " + q + "phase:" + ph + ",log" + q // no disruptive action
+	case 2:
+		return "SecDefaultAction " + q + "phase:" + ph + "," + dis + r.pick([]string{",id:5", ",msg:'m'", ",t:none", ",tag:x", ",nosuch", ",pass:1", ",phase:9"}) + q
+	case 3:
+		return "SecDefaultAction" + r.pick([]string{"", " ", " \"\""})
+	case 4:
+		return "SecDefaultAction " + q + "phase:" + ph + ",deny," + dis + extra + q // two disruptive actions: the last one counts
+	default:
+		parts := []string{"phase:" + ph, dis}
+		if r.rng.Intn(2) == 0 {
+			parts = []string{dis, "phase:" + ph}
+		}
+		return "SecDefaultAction " + q + strings.Join(parts, ",") + extra + q
+	}
+}
+
 func (r *runner) fragConfig(runnable bool) string {
 	ids := 0
+	fragPhase = ""
 	n := 1 + r.rng.Intn(6)
+	if r.rng.Intn(3) == 0 { // start with a default so that every rule below may inherit
+		return r.fragDefault(runnable) + "\n" + r.fragConfigBody(&ids, n, runnable)
+	}
+	return r.fragConfigBody(&ids, n, runnable)
+}
+
+func (r *runner) fragConfigBody(idsp *int, n int, runnable bool) string {
+	ids := *idsp
 	var lines []string
 	for i := 0; i < n; i++ {
 		lines = append(lines, r.fragLine(&ids, runnable))
